@@ -1,0 +1,17 @@
+//go:build verif
+
+package verifhook
+
+import (
+	"github.com/open2b/scriggo/ast"
+	"github.com/open2b/scriggo/internal/compiler"
+)
+
+// Expression parser with explicit flags and expression tokens (add-only).
+type ExprToken = compiler.VerifExprToken
+
+var (
+	LexExpr          = compiler.VerifLexExpr
+	ParseExprFlags   = compiler.VerifParseExprFlags
+	SetExpandedPrint = ast.VerifSetExpandedPrint
+)
